@@ -253,17 +253,21 @@ class Merge(Expr):
 
         elif self.is_broadcast_join:
             meta_index_names = set(self._meta.index.names)
-            if (
-                self.broadcast_side == "left"
-                and set(self.right._meta.index.names) == meta_index_names
-            ):
-                return self._bcast_right._divisions()
-            elif (
-                self.broadcast_side == "right"
-                and set(self.left._meta.index.names) == meta_index_names
-            ):
-                return self._bcast_left._divisions()
-            _npartitions = max(self.left.npartitions, self.right.npartitions)
+            # the output only keeps the index of the side that is not broadcast
+            # when that side is joined on its index
+            if self.broadcast_side == "left":
+                kept, joined_on_index = self._bcast_right, (
+                    self.right_index
+                    or _contains_index_name(self.right._meta, self.right_on)
+                )
+            else:
+                kept, joined_on_index = self._bcast_left, (
+                    self.left_index
+                    or _contains_index_name(self.left._meta, self.left_on)
+                )
+            if set(kept._meta.index.names) == meta_index_names and joined_on_index:
+                return kept._divisions()
+            return (None,) * len(kept._divisions())
 
         else:
             _npartitions = self._npartitions
@@ -716,8 +720,13 @@ class BroadcastJoin(Merge, PartitionsFiltered):
 
     def _divisions(self):
         if self.broadcast_side == "left":
-            return self.right._divisions()
-        return self.left._divisions()
+            kept, on, on_index = self.right, self.right_on, self.right_index
+        else:
+            kept, on, on_index = self.left, self.left_on, self.left_index
+        if on_index or _contains_index_name(kept._meta, on):
+            return kept._divisions()
+        # joined on columns: every output partition gets a fresh index
+        return (None,) * (len(kept._divisions()))
 
     def _simplify_up(self, parent, dependents):
         return
